@@ -11,6 +11,7 @@ package main
 import (
 	"fmt"
 	"math"
+	"reflect"
 	"strings"
 	"time"
 
@@ -144,8 +145,119 @@ func c13CallArityCase(params int, variadic bool, nargs int) *Case {
 	return c
 }
 
+// variadic functions: what the function RECEIVES (every element of its variadic parameter, after the fixed ones) for calls with 0..3
+// arguments drawn from scalars, nil and lists of every kind; direct call and pipe form. A `...any` parameter receives every argument as one
+// element - a list too.
+func c13CallVariadicCase(shape string, argNames []string, pipe bool, data map[string]any) *Case {
+	var got []any
+	called := false
+	var fn any
+	var fixed []string
+	elem := "any"
+	switch shape {
+	case "...any":
+		fn = func(xs ...any) string { called = true; got = append([]any{}, xs...); return "called" }
+	case "any,...any":
+		fixed = []string{"any"}
+		fn = func(a any, xs ...any) string { called = true; got = append([]any{a}, xs...); return "called" }
+	case "string,...any":
+		fixed = []string{"string"}
+		fn = func(a string, xs ...any) string { called = true; got = append([]any{a}, xs...); return "called" }
+	case "...string":
+		elem = "string"
+		fn = func(xs ...string) string {
+			called = true
+			got = nil
+			for _, x := range xs {
+				got = append(got, x)
+			}
+			return "called"
+		}
+	case "...int":
+		elem = "int"
+		fn = func(xs ...int) string {
+			called = true
+			got = nil
+			for _, x := range xs {
+				got = append(got, x)
+			}
+			return "called"
+		}
+	}
+	var expr string
+	if pipe && len(argNames) > 0 {
+		expr = argNames[0] + " | fn"
+		if len(argNames) > 1 {
+			expr += "(" + strings.Join(argNames[1:], ", ") + ")"
+		}
+	} else {
+		expr = "fn(" + strings.Join(argNames, ", ") + ")"
+	}
+	res := renderPage(map[string]string{"p.vuego": `<p>[[{{ ` + expr + ` }}]]</p>`}, "p.vuego", data, vuego.WithFuncs(vuego.FuncMap{"fn": fn}))
+	var args []any
+	for _, n := range argNames {
+		args = append(args, toVal(data[n]))
+	}
+	if args == nil {
+		args = []any{}
+	}
+	var impl any
+	switch {
+	case res.Panic != "" || res.Timeout:
+		impl = map[string]any{"panic": res.Panic}
+	case res.Err != "":
+		impl = map[string]any{"err": true}
+	case called:
+		lst := []any{}
+		for _, g := range got {
+			lst = append(lst, c13StripTy(toVal(g)))
+		}
+		impl = map[string]any{"ok": lst}
+	default:
+		impl = map[string]any{"not-called": res.Out}
+	}
+	name := fmt.Sprintf("callvariadic %s: %s", shape, expr)
+	var stripped []any
+	for _, a := range args {
+		stripped = append(stripped, c13StripTy(a))
+	}
+	c := &Case{Name: name, Key: name, Op: true, Input: map[string]any{"op": "callvariadic", "fixed": fixed, "elem": elem, "args": args, "shape": shape, "names": argNames, "pipe": pipe}, Impl: impl, Oracle: &Verdict{OK: true},
+		Tags: []string{"stream:callvariadic", "shape:" + shape}}
+	if fixed == nil {
+		c.Input["fixed"] = []string{}
+	}
+	switch {
+	case res.Panic != "" || res.Timeout:
+		c.Oracle = &Verdict{OK: false, Class: "callvariadic-crash:" + shape, Detail: fmt.Sprintf("%s: %+v", expr, res)}
+	case (shape == "...any" || shape == "any,...any") && len(argNames) >= len(fixed) && (res.Err != "" || !called || len(got) != len(argNames) || !reflect.DeepEqual(impl.(map[string]any)["ok"], stripped) && len(stripped) > 0):
+		// every argument is one element of what the function receives
+		c.Oracle = &Verdict{OK: false, Class: "callvariadic-arguments-not-one-each:" + shape, Detail: fmt.Sprintf("%s with %v: the function received %d value(s) %v (%s); the call has %d argument(s)", expr, argNames, len(got), got, res.Err, len(argNames))}
+	}
+	return c
+}
+
+func c13CallVariadic(r *Run) {
+	data := map[string]any{"lst": []any{1, 2, 3}, "strs": []string{"a", "b"}, "ints": []int{4, 5}, "empty": []any{}, "one": []any{"x"}, "nested": []any{[]any{1}, "y"}, "s": "str", "n": 7, "nilv": nil, "m": map[string]any{"k": "v"}, "digits": "12"}
+	names := []string{"lst", "strs", "ints", "empty", "one", "nested", "s", "n", "nilv", "m", "digits"}
+	for _, shape := range []string{"...any", "any,...any", "string,...any", "...string", "...int"} {
+		for _, pipe := range []bool{false, true} {
+			if !pipe {
+				r.Add(c13CallVariadicCase(shape, nil, false, data))
+			}
+			for _, a := range names {
+				r.Add(c13CallVariadicCase(shape, []string{a}, pipe, data))
+				for _, b := range []string{"lst", "s", "n", "strs"} {
+					r.Add(c13CallVariadicCase(shape, []string{a, b}, pipe, data))
+				}
+			}
+			r.Add(c13CallVariadicCase(shape, []string{"s", "lst", "n"}, pipe, data))
+		}
+	}
+}
+
 func c13CallModel(r *Run) {
 	c13CallRun = r
+	c13CallVariadic(r)
 	for _, pt := range c13PTypes {
 		for vi, v := range c13CallValues() {
 			r.Add(c13CallConvCase(pt, vi, v))
